@@ -180,7 +180,27 @@ def facts(func):
 
 
 def build_reference(repo):
-    return {'%s:%s' % (m, q): facts(f) for (m, q), f in repo.all_funcs().items()}
+    ref = {'%s:%s' % (m, q): facts(f) for (m, q), f in repo.all_funcs().items()}
+    # names bound at class / module level (phase B propagates literals bound to names this list does not know)
+    names = []
+    for m in repo.modules.values():
+        for node in ast.walk(m.tree):
+            if isinstance(node, (ast.ClassDef, ast.Module)):
+                prefix = (node._qualname + '.') if isinstance(node, ast.ClassDef) else ''
+                for st in node.body:
+                    tgts = st.targets if isinstance(st, ast.Assign) else [st.target] if isinstance(st, ast.AnnAssign) else []
+                    for t in tgts:
+                        if isinstance(t, ast.Name):
+                            names.append('%s:%s%s' % (m.name, prefix, t.id))
+    ref['<names>'] = sorted(names)
+    return ref
+
+
+def load_reference():
+    if not os.path.exists(REF_PATH):
+        return {}
+    with open(REF_PATH) as f:
+        return json.load(f)
 
 
 class _Guided:
@@ -364,7 +384,7 @@ def phase_c(repo):
     applied = {}
     for (m, q), func in repo.all_funcs().items():
         key = '%s:%s' % (m, q)
-        if key not in ref:
+        if key not in ref or key.startswith('<'):
             continue
         cur = facts(func)
         r = ref[key]
